@@ -33,6 +33,40 @@ fn tile_entries(rng: &mut Rng, n: usize, entropy: bool) -> Vec<REntry> {
 }
 
 /// A valid tile-entry list whose `None` encoding has exactly `target` bytes.
+/// Like `steer`, but every entry has a non-contiguous offset >= 2^36 (6-byte varints) and id deltas up to 2^40.
+pub fn steer_wide(rng: &mut Rng, target: usize) -> Option<Vec<REntry>> {
+    let mut v: Vec<REntry> = Vec::new();
+    let mut id = rng.below(100);
+    for _ in 0..200_000 {
+        let enc = R::dir_encoded_len(&v);
+        if enc == target {
+            return Some(v);
+        }
+        if enc > target {
+            v.pop();
+            continue;
+        }
+        let diff = target - enc;
+        if diff >= 16 || v.is_empty() {
+            id += if rng.chance(1, 3) { rng.range(1 << 35, 1 << 40) } else { rng.log_range(1, 1 << 20) };
+            let k = v.len() as u64;
+            v.push(REntry {
+                tile_id: id,
+                offset: (1 << 36) + 1000 * k + rng.below(7),
+                length: rng.range(1, 127) as u32,
+                run_length: 1,
+            });
+            id += 1;
+        } else {
+            let d = diff.min(4);
+            let val: u32 = [128, 16384, 1 << 21, 1 << 28][d - 1];
+            let Some(e) = v.iter_mut().rev().find(|e| e.length < 128) else { return None };
+            e.length = val;
+        }
+    }
+    None
+}
+
 pub fn steer(rng: &mut Rng, target: usize) -> Option<Vec<REntry>> {
     let mut v: Vec<REntry> = Vec::new();
     let mut id = rng.below(100);
@@ -287,6 +321,25 @@ pub fn run(ctx: &mut Ctx) {
             }
             case += 1;
         }
+    }
+    // ---- the same boundary with wide values (offsets >= 2^36, id deltas up to 2^40: 6-byte varints)
+    for target in [16_250usize, 16_257, 16_258, 16_260, 16_265, 16_300] {
+        if ctx.mine(case) {
+            ctx.begin(case);
+            let mut rng = ctx.rng("c06.steer_wide", target as u64);
+            match steer_wide(&mut rng, target) {
+                Some(list) => {
+                    assert_eq!(R::dir_encoded_len(&list), target);
+                    check_write(ctx, &list, R::C_NONE, None, false, &mut rng);
+                    check_write(ctx, &list, R::C_NONE, Some(7), true, &mut rng);
+                    ctx.count("steered_wide");
+                    ctx.case(entries_fp(&list) ^ 0x5700, true);
+                }
+                None => ctx.inconclusive(&format!("wide size steering to {target} bytes failed")),
+            }
+            ctx.end(case);
+        }
+        case += 1;
     }
     // ---- bracketing for the codecs: smallest prefix of a fixed entropy list that spills, +-2 entries
     for codec in [R::C_GZIP, R::C_BROTLI, R::C_ZSTD] {
